@@ -182,6 +182,25 @@ WrapElem(n, c, junk) ==
                                      ELSE IF x = m THEN inner \o (IF junk THEN <<sn>> ELSE <<>>)
                                      ELSE IF x = cn THEN <<n>> ELSE kids[x]]
     /\ Step /\ UNCHANGED root
+\* sibling wrapping in one step: the assertion n is parked in a new container placed first under its parent, a forged
+\* assertion (id x) takes its place, optionally with a signature the attacker made over it
+ParkElem(n, c, junk) ==
+    /\ n \in Attached /\ n # root /\ kind[n] = "Asrt" /\ CanHold(Parent(n), c)
+    /\ Cardinality(Free) >= (2 + (IF junk THEN 1 ELSE 0))
+    /\ LET m == Lowest
+           f2 == Free \ {m}
+           cn == CHOOSE x \in f2 : \A y \in f2 : x <= y
+           f3 == f2 \ {cn}
+           sn == IF junk THEN CHOOSE x \in f3 : \A y \in f3 : x <= y ELSE 0
+           op == Parent(n)
+       IN /\ kind' = [x \in Node |-> IF x = m THEN "Asrt" ELSE IF x = cn THEN c ELSE IF x = sn THEN "Sig" ELSE kind[x]]
+          /\ ida' = [ida EXCEPT ![m] = "x"]
+          /\ content' = [content EXCEPT ![m] = "forged"]
+          /\ sorig' = [x \in Node |-> IF x = sn THEN "X" ELSE sorig[x]]
+          /\ kids' = [x \in Node |-> IF x = op THEN <<cn>> \o [i \in 1..Len(kids[op]) |-> IF kids[op][i] = n THEN m ELSE kids[op][i]]
+                                     ELSE IF x = m THEN (IF junk THEN <<sn>> ELSE <<>>)
+                                     ELSE IF x = cn THEN <<n>> ELSE kids[x]]
+    /\ Step /\ UNCHANGED root
 \* wrap the whole document in a forged response
 WrapRoot(i) ==
     /\ Free # {}
@@ -199,6 +218,7 @@ Edit == \/ \E n \in Node : Forge(n) \/ Drop(n)
         \/ \E o \in {"A", "R", "X"}, p \in Node, pos \in {"first", "last"} : CopySig(o, p, pos)
         \/ \E i \in Ids \cup {NoId} : WrapRoot(i)
         \/ \E n \in Node, c \in {"direct", "Leaf", "Advice", "Obj"}, j \in BOOLEAN : WrapElem(n, c, j)
+        \/ \E n \in Node, c \in {"Ext", "Leaf", "Obj"}, j \in BOOLEAN : ParkElem(n, c, j)
 Next == edits < K /\ Edit
 Spec == Init /\ [][Next]_vars
 
